@@ -1665,7 +1665,8 @@ struct SocksEngine : Engine
 			"count, command 0/4/127/128/255, reserved byte, address type, name length 0/1/2/3/255/off-by-one, truncation at every byte with and without "
 			"EOF, trailing garbage up to 200 kB, random streams, single byte flips, bad BIND endpoints, odd host names, doubled requests) and UDP datagrams "
 			"(short, wrong address type, inconsistent name length, fragment, oversize, random, foreign source port); well-formed sessions in the same run "
-			"are witnesses checked at full strength. Both classes run in flavours asan and dbg. distinct = distinct shape hash; non-trivial = class 0: a "
+			"are witnesses checked at full strength. Scripted scenarios among the runs: an abandoned BIND followed by a BIND of the same endpoint, three UDP associations "
+			"ending oldest-first, a one-way soak through a small tail-drop queue on the proxy's link. Both classes run in flavours asan and dbg. distinct = distinct shape hash; non-trivial = class 0: a "
 			"byte or datagram was relayed or a failure reply was verified; class 1: malformed bytes or datagrams reached the proxy";
 	}
 	int64_t budget(std::string const&, int tier) const override { return tier ? 40000 : 3000; }
